@@ -9,6 +9,7 @@ package main
 // Both are trusted to be faithful; what is checked is the repository's conversion layer.
 
 import (
+	"encoding/json"
 	"fmt"
 	"go/types"
 	"sort"
@@ -358,8 +359,15 @@ func init() {
 				if s == "" {
 					return in.newError("unexpected end of JSON input")
 				}
+				if !json.Valid(bs) {
+					return in.newError("invalid character in JSON input")
+				}
+				panic(unsupported{"json.Unmarshal of concrete JSON text that was not produced by json.Marshal in this run"})
 			}
-			panic(unsupported{"json.Unmarshal of bytes that were not produced by json.Marshal in this run"})
+			// symbolic bytes that are not a token of this run (e.g. raw integers stored next to JSON
+			// records): treated as not being JSON
+			in.stubsUsed["json.Unmarshal of symbolic non-token bytes: treated as invalid JSON"]++
+			return in.newError("invalid character in JSON input")
 		}
 		if e.t == nil {
 			return Iface{} // null
@@ -373,7 +381,13 @@ func init() {
 			}
 		}
 		if !types.Identical(st, dt) && !types.Identical(st.Underlying(), dt.Underlying()) {
-			panic(unsupported{fmt.Sprintf("json.Unmarshal of %v into %v", st, dt)})
+			// decoding into a different Go type: convert along the JSON object structure
+			cv, ok := in.jsonConvert(st, src, dt, dst)
+			if !ok {
+				panic(unsupported{fmt.Sprintf("json.Unmarshal of %v into %v", st, dt)})
+			}
+			in.store(dst, cv)
+			return Iface{}
 		}
 		// a JSON null (nil map/slice/pointer) leaves the destination unchanged
 		switch x := src.(type) {
@@ -631,4 +645,98 @@ func (in *Interp) zeroLike(x *Term) *Term {
 		return in.tt.False
 	}
 	return in.tt.BV(x.sort.W, 0)
+}
+
+
+// jsonConvert converts a value that was marshalled as type st into the Go type dt the way a JSON
+// round trip would: objects by (case-insensitive) member name, numbers by value, byte slices and
+// strings as such. cur is the current destination (members absent in the JSON keep their value).
+func (in *Interp) jsonConvert(st types.Type, v Value, dt types.Type, cur *Ptr) (Value, bool) {
+	if iv, ok := v.(Iface); ok {
+		if iv.t == nil {
+			return in.load(cur), true // null: unchanged
+		}
+		return in.jsonConvert(iv.t, iv.v, dt, cur)
+	}
+	if types.Identical(st.Underlying(), dt.Underlying()) {
+		return in.deepCopy(v, map[*Obj]*Obj{}), true
+	}
+	switch du := dt.Underlying().(type) {
+	case *types.Struct:
+		dv := in.load(cur).(*Struct)
+		members := map[string]struct {
+			t types.Type
+			v Value
+		}{}
+		switch su := st.Underlying().(type) {
+		case *types.Map:
+			m := v.(*MapV)
+			if m == nil {
+				return dv, true
+			}
+			for _, e := range m.entries {
+				if !e.live {
+					continue
+				}
+				k, ok := isConcreteStr(e.k)
+				if !ok {
+					return nil, false
+				}
+				members[strings.ToLower(k)] = struct {
+					t types.Type
+					v Value
+				}{su.Elem(), e.v}
+			}
+		case *types.Struct:
+			sv := v.(*Struct)
+			for i := 0; i < su.NumFields(); i++ {
+				name, ok, _ := jsonFieldName(su, i)
+				if ok {
+					members[strings.ToLower(name)] = struct {
+						t types.Type
+						v Value
+					}{su.Field(i).Type(), sv.F[i]}
+				}
+			}
+		default:
+			return nil, false
+		}
+		for i := 0; i < du.NumFields(); i++ {
+			name, ok, _ := jsonFieldName(du, i)
+			if !ok {
+				continue
+			}
+			m, present := members[strings.ToLower(name)]
+			if !present {
+				continue
+			}
+			fv, ok := in.jsonConvert(m.t, m.v, du.Field(i).Type(), cur.sub(i))
+			if !ok {
+				return nil, false
+			}
+			dv.F[i] = fv
+		}
+		return dv, true
+	case *types.Basic:
+		switch x := v.(type) {
+		case *Term:
+			if du.Info()&types.IsInteger != 0 && x.sort.K == SBV {
+				return in.conv(dt, st, x), true
+			}
+			if du.Info()&types.IsBoolean != 0 && x.sort.K == SBool {
+				return x, true
+			}
+		case string, *SymStr:
+			if du.Info()&types.IsString != 0 {
+				return x, true
+			}
+		}
+	case *types.Slice:
+		if s, ok := v.(Slice); ok {
+			if ss, ok2 := st.Underlying().(*types.Slice); ok2 && types.Identical(ss.Elem().Underlying(), du.Elem().Underlying()) {
+				return in.deepCopy(s, map[*Obj]*Obj{}), true
+			}
+		}
+	}
+	return nil, false
 }
